@@ -120,13 +120,17 @@ Section FailMachine.
         else (c, None)
     end.
 
+  (* _make_cells: a new formula cell starts from its stored result, a new range
+     node from None (Graph.build's [c1], written as updates of the cache) *)
+  Definition new_cells (s : state) (b' : nat -> bool) : cache :=
+    fold_left (fun (c : cache) m =>
+                 if b' m && negb (st_built s m) && negb (wb_input W m)
+                 then upd c m (if wb_range W m then VNone else wb_stored W m) else c)
+              (seq 0 (wb_n W)) (st_cache s).
+
   Definition build_f (s : state) (n : nat) : state * option errclass :=
     let b' := closure W (S (wb_n W)) (st_built s) n in
-    let fresh m := b' m && negb (st_built s m) in
-    let c1 : cache := fun m =>
-      if fresh m && negb (wb_input W m)
-      then (if wb_range W m then VNone else wb_stored W m)
-      else st_cache s m in
+    let c1 := new_cells s b' in
     (* the code's order first; the tail makes sure that a build that does not fail
        has evaluated every new range node whatever [rorder] is (evaluating a range
        node that holds a value is a no-op) *)
